@@ -78,9 +78,11 @@ def build_world(desc, reset=True):
                     material_basis=units["material_basis"], material_unit=units["material_unit"])
         iso.convert_temperature(units["temperature_unit"])
         world[key] = iso
-    for key, gas, kk in (("M1", "methane", 1.3), ("M2", "ethane", 4.0)):
-        m = pgm.get_isotherm_model("Langmuir")
+    for key, gas, kk in (("M1", "methane", 1.3), ("M2", "ethane", 4.0), ("M3", "methane", 2.0)):
+        m = pgm.get_isotherm_model("Langmuir" if key != "M3" else "Toth")
         m.params = {"K": kk * desc["shape"]["C"] / 50.0, "n_m": desc["shape"]["nm"]}
+        if key == "M3":
+            m.params["t"] = 0.7
         m.pressure_range = [0.0, 10.0]
         m.loading_range = [0.0, float(m.loading(10.0))]
         world[key] = pygaps.ModelIsotherm(model=m, material=pygaps.Material("m-model"), adsorbate=gas, temperature=298.0,
@@ -128,10 +130,14 @@ def _set_content(obj, content):
         obj.update(content)
 
 
+_NP_ERR_DEFAULT = dict(np.geterr())  # process-global state of a third party the library may touch
+
+
 def reset_module_state():
     import copy
     for (obj, snap) in _MODULE_STATE.values():
         _set_content(obj, copy.deepcopy(snap))
+    np.seterr(**_NP_ERR_DEFAULT)
 
 
 def clear_caches():
@@ -143,6 +149,7 @@ def clear_caches():
     from pygaps.core.adsorbate import Adsorbate
     saved = {key: (dict(obj) if isinstance(obj, dict) else list(obj) if isinstance(obj, list) else set(obj))
              for key, (obj, _) in _MODULE_STATE.items()}
+    saved["@numpy_err"] = dict(np.geterr())
     reset_module_state()
     ADSORBATE_LIST[:] = [Adsorbate(**copy.deepcopy(a.to_dict())) for a in K._ADS_SNAPSHOT]
     return saved
@@ -151,6 +158,7 @@ def clear_caches():
 def restore_registry(saved):
     """Give the history world its own process-global state back (registry objects and module-level containers)."""
     ADSORBATE_LIST[:] = K._ADS_SNAPSHOT
+    np.seterr(**saved.pop("@numpy_err"))
     for key, content in saved.items():
         _set_content(_MODULE_STATE[key][0], content)
 
@@ -275,8 +283,12 @@ def run_op(world, op):
     if name == "whittaker":
         return pgc.enthalpy_sorption_whittaker(iso, model=op["model"], **kw)
     if name == "model_iso":
-        m = pgm.model_iso(iso, branch=op["branch"], model=op["model"])
+        m = pgm.model_iso(iso, branch=op["branch"], model=op["model"], **kw)
         return {"params": m.model.params, "rmse": m.model.rmse, "id": m.iso_id}
+    if name == "model_overrange":
+        # beyond the capacity of the Toth model: the normal outcome is nan (not an error)
+        m3 = world["M3"]
+        return [m3.pressure_at(m3.model.params["n_m"] * (1.05 + op["q"])), m3.loading_at(op["p1"])]
     if name == "iast_point":
         return iast_point([world["M1"], world["M2"]], [op["p1"], op["p2"]])
     if name == "iast_point_mixed":
@@ -347,6 +359,8 @@ _FILLS = [None, None, None, 0.0, 1.5, [0.0, 2.5], "extrapolate"]
 _CUSTOM_ADSORBENT = {"molecular_diameter": 0.31, "polarizability": 1.2e-3, "magnetic_susceptibility": 1.1e-7, "surface_density": 2.9e19}
 _CUSTOM_ADSORBATE = {"molecular_diameter": 0.32, "polarizability": 1.5e-3, "magnetic_susceptibility": 3.1e-8, "surface_density": 6.5e18,
                      "liquid_density": 0.81, "adsorbate_molar_mass": 28.0}
+_BAD_GUESS = {  # starting guesses outside the parameter bounds: the fit is refused inside the least-squares routine
+    "Langmuir": {"K": -1.0, "n_m": 1.0}, "Henry": {"K": -1.0}, "Toth": {"K": -1.0, "n_m": 1.0, "t": 1.0}}
 _KW = {  # documented keyword arguments that callers usually leave at their defaults (values are JSON-able)
     "area_BET": [{"p_limits": [0.05, 0.3]}, {"p_limits": [0.1, 0.5]}],
     "dr_plot": [{"p_limits": [0.0, 0.05]}, {"p_limits": [1e-3, 0.2]}],
@@ -361,7 +375,7 @@ _KW = {  # documented keyword arguments that callers usually leave at their defa
     "initial_henry_slope": [{"max_adjrms": 0.05}, {"p_limits": [0.0, 0.2]}, {"l_limits": [0.0, 2.0]}],
     # "@frac": fractions of the largest adsorption loading of the isotherms involved (resolved in run_op)
     "isosteric_enthalpy": [{"loading_points": {"@frac": [0.3, 0.45, 0.6]}}, {"loading_points": {"@frac": [0.5, 0.35]}}],
-    "whittaker": [{"loading": {"@frac": [0.2, 0.4, 0.6]}}, {"loading": {"@frac": [0.7, 0.15]}}],
+    "whittaker": [{"loading": {"@frac": [0.2, 0.4, 0.6]}}, {"loading": {"@frac": [0.7, 0.15]}}, {"loading": {"@frac": [0.3, 5.0]}}],
 }
 
 
@@ -416,8 +430,12 @@ def _op(focus=None):
         "initial_enthalpy_point": simple("initial_enthalpy_point"),
         "isosteric_enthalpy": with_kw(st.builds(lambda b, o: {"op": "isosteric_enthalpy", "branch": b, "order": o}, st.just("ads"), st.integers(0, 1)), _KW["isosteric_enthalpy"]),
         "whittaker": with_kw(st.builds(lambda i, m: {"op": "whittaker", "iso": i, "model": m}, iso, st.sampled_from(["Langmuir", "Toth"])), _KW["whittaker"]),
-        "model_iso": st.builds(lambda i, b, m: {"op": "model_iso", "iso": i, "branch": b, "model": m}, iso, br,
-                               st.sampled_from(["Langmuir", "Henry", "DSLangmuir", "Toth"])),
+        "model_iso": st.builds(lambda i, b, m, bad: dict({"op": "model_iso", "iso": i, "branch": b, "model": m},
+                                                        **({"kw": {"param_guess": _BAD_GUESS[m]}} if bad and m in _BAD_GUESS else {})),
+                               iso, br, st.sampled_from(["Langmuir", "Henry", "DSLangmuir", "Toth"]),
+                               st.sampled_from([False, False, True])),
+        "model_overrange": st.builds(lambda a, qq: {"op": "model_overrange", "p1": round(a, 4), "q": round(qq, 3)},
+                                     st.floats(0.05, 3), q),
         "iast_point": st.builds(lambda a, b: {"op": "iast_point", "p1": round(a, 4), "p2": round(b, 4)}, st.floats(0.05, 3), st.floats(0.05, 3)),
         "iast_point_mixed": st.builds(lambda a, b: {"op": "iast_point_mixed", "p1": round(a, 4), "p2": round(b, 4)},
                                       st.floats(0.05, 1), st.floats(0.01, 0.5)),
@@ -429,7 +447,7 @@ def _op(focus=None):
         weights = ["loading_at"] * 4 + ["pressure_at"] * 3 + ["spreading_pressure_at"] * 3 + ["loading_at_units", "pressure", "to_json"]
         return st.sampled_from(weights).flatmap(lambda k: cat[k])
     if focus == "caches":
-        weights = (["t_plot"] * 6 + ["psd_mesoporous"] * 4 + ["adsorbate_props"] * 3 + ["psd_micro_curved"] * 4 + ["psd_dft"] * 4 + ["area_BET", "whittaker",
+        weights = (["t_plot"] * 6 + ["psd_mesoporous"] * 4 + ["adsorbate_props"] * 3 + ["psd_micro_curved"] * 4 + ["psd_dft"] * 4 + ["model_iso"] * 2 + ["model_overrange"] * 2 + ["area_BET", "whittaker",
                    "isosteric_enthalpy", "alpha_s", "loading", "pressure", "iast_point_mixed", "model_accessors"])
         return st.sampled_from(weights).flatmap(lambda k: cat[k])
     weights = (["loading_at"] * 5 + ["pressure_at"] * 4 + ["spreading_pressure_at"] * 5 + ["pressure", "loading"] * 2 +
